@@ -157,7 +157,7 @@ Section Machine.
     intros syms Hsy.
     set (b0 := {| b_states := b_states b; b_transitions := b_transitions b; b_queue := q |}) in *.
     assert (HB0 : BInv cx b0).
-    { destruct HB as [A B C D E F G]. split; auto. intros k Hk. apply B. rewrite Eq. right. exact Hk. }
+    { destruct HB as [A B C D E F G H']. split; auto. intros k Hk. apply B. rewrite Eq. right. exact Hk. }
     assert (HC0 : Cov cx b0 [i]).
     { intros k Hk1 Hk2 Hk3. cbn [b_states b_queue] in *.
       apply HC; [exact Hk1| |intros []]. rewrite Eq. intros [<-|Hin]; [apply Hk3; left; reflexivity|contradiction]. }
